@@ -778,15 +778,24 @@ class Executor:
             yield from self._mutator_call(e, st)
             return
         pos = []
-        star = None
-        for a in e.args:
+        starred = []
+        for i, a in enumerate(e.args):
             if isinstance(a, ast.Starred):
-                raise Unsupported(f"*args call at line {e.lineno}")
-            pos.append(a)
+                starred.append(i)
+                pos.append(a.value)
+            else:
+                pos.append(a)
         kwnames = [k.arg for k in e.keywords]
         for s, vals in self.evs([e.func] + pos + [k.value for k in e.keywords], st):
             fn = vals[0]
-            args = vals[1:1 + len(pos)]
+            args = []
+            for i, v in enumerate(vals[1:1 + len(pos)]):
+                if i in starred:
+                    if not isinstance(v, (tuple, list)):
+                        raise Unsupported(f"*args of a non-sequence at line {e.lineno}")
+                    args.extend(v)
+                else:
+                    args.append(v)
             kw = {}
             for name, v in zip(kwnames, vals[1 + len(pos):]):
                 if name is None:
@@ -1017,11 +1026,20 @@ class Executor:
             yield s1, None
 
     def do_yield(self, e, st):
+        """generator functions: the yielded values form a ghost sequence; its length is the ghost counter
+        `count`, and the contract's `yields` clauses are obligations at every yield"""
         if isinstance(e, ast.YieldFrom):
             raise Unsupported(f"yield from at line {e.lineno}")
         for s1, v in self.ev(e.value, st):
-            s1.ghost.setdefault("yielded", []).append(v)
-            self.world.on_yield(self, s1, v, e.lineno)
+            k = s1.ghost.get("count", 0)
+            if self.case is not None and self.case._get("yields") is not None and self.depth == 1:
+                envv = dict(s1.env)
+                envv["__count__"] = k
+                from .world import Env
+
+                for label, f in self.case._get("yields")(v, k, Env(envv), self.args0):
+                    self.oblige(s1, f, "yield", label, line=e.lineno)
+            s1.ghost["count"] = sym.add(k, 1)
             yield s1, None
 
     def assign(self, tgt, v, st):
